@@ -115,7 +115,9 @@ func (m *vfModel) credsOf(ctx *vfReqCtx) []vfCred {
 				// check): that moment, not the day the 45-day certificate was minted, starts the 24 hours
 				at = now
 			}
-			out = append(out, vfCred{Kind: a.Kind, Subject: a.Subject, Proven: p, Truly: p, AuthAt: at, Valid: true})
+			// the handshake may lie in the past (kept-alive connection): the certificate has to be valid now
+			valid := !now.After(ctx.req.Cert.NotAfter) && !now.Before(ctx.req.Cert.NotBefore)
+			out = append(out, vfCred{Kind: a.Kind, Subject: a.Subject, Proven: p, Truly: p, AuthAt: at, Valid: valid})
 		}
 	}
 	for _, pc := range ctx.pwChecks {
